@@ -1,7 +1,10 @@
 """C02 - hook value life-cycle: explicit value, then remembered value, then computation.
 
-Tie: K (hand-written model lean/PyrollModel/Lifecycle.lean, theorems lean/PyrollProps/C02.lean).
-The harness creates fresh HookHost subclasses with type() (plain HookHost hierarchies, or subclasses of the real
+Tie: T + K (hand-written model lean/PyrollModel/Lifecycle.lean, theorems lean/PyrollProps/C02.lean).
+T: `translate` re-reads pyroll/core/hooks.py (driver/translate/hooks_skeleton.py -> lean/PyrollModel/Gen/C02Hooks.lean): the
+model CONSUMES where has_set / has_cached look, what reevaluate_cache does and the None check of Hook.__get__ with its
+position before the store; the statements of the other mirrored functions are pinned by `hooks_source_as_modelled`.
+K: the harness creates fresh HookHost subclasses with type() (plain HookHost hierarchies, or subclasses of the real
 Unit.Profile so that the real hand-over constructor is used), drives them and the Lean model with the same
 operation lines and compares after EVERY operation: the returned value / exception kind, the invocation trace
 (which implementation or explicit callable ran, in which order), and the complete `__dict__` / `__cache__`
@@ -20,6 +23,17 @@ ID = "C02"
 LEAN_MODULES = ["PyrollProps.C02"]
 MODEL = "c02"
 MODEL_MODULES = ["PyrollModel.LifecycleDriver"]
+
+
+def translate(ctx):
+    """(T) re-read pyroll/core/hooks.py of the working tree -> lean/PyrollModel/Gen/C02Hooks.lean (role lines of
+    Hook.__get__/__set__/__delete__/get_result, reevaluate_cache, has_*, __attrs__, evaluate_and_set_hooks, root_hooks + the
+    facts the model consumes: where has_set / has_cached look, what reevaluate_cache does, the None check and its position)"""
+    from ..translate import hooks_skeleton
+    info = hooks_skeleton.emit_for(ctx, ID)
+    ctx.notes["hooks_source"] = {k: v for k, v in info["facts"].items() if k in hooks_skeleton.SELECTION[ID]["fact_names"]}
+
+
 RULE = ("random operation histories (5-40 ops, 40% of the ops stay on the previous (instance, hook) pair; a removal is "
         "often followed by re-evaluation and a look at the hook that lost the implementation; root hooks declared up "
         "front in half of the cases) over 1-3 fresh classes (linear hierarchies and independent roots, plain HookHost or "
@@ -33,6 +47,7 @@ RULE = ("random operation histories (5-40 ops, 40% of the ops stay on the previo
         "remembered / computed) or a re-evaluation of a non-empty cache; distinct by the canonical op list. Plus solved "
         "real pass sequences (two passes, a transport between) for the root-hook sentences.")
 ASSUMPTIONS = [
+    "source tie (T): pyroll/core/hooks.py is read with ast into canonical role lines and typed facts (driver/translate/hooks_skeleton.py, trusted); the facts the model consumes are also executed against the imported pyroll.core.hooks on every run (self_check), the role lines are compared with the hand-written shape lean/PyrollModel/HookSource.lean by the theorem hooks_source_as_modelled",
     "CPython dict insertion order, descriptor protocol, inspect.signature arity and hasattr/getattr-default "
     "semantics are modelled, not verified",
     "the model classifies an explicit callable only by the number of parameters inspect.signature reports for it (call0 / "
